@@ -1169,7 +1169,7 @@ def static_obligations(run, theory):
     for nm in names:
         txt = res.get(nm, "")
         closed = txt.startswith("Closed under the global context")
-        if nm.endswith("_refuted"):
+        if nm.endswith("_refuted"):   # names ending in _refuted_before_repair are historical lemmas
             run.refuted.append(nm[: -len("_refuted")])
         run.oblige("theorem:" + nm, ok and nm in res, "theorem")
         if ok and not closed:
